@@ -90,6 +90,18 @@ impl Scenario for C08 {
             p.note = format!("sweep: {} as {}", self.corpus.files[f].0, ENCS[e as usize].name());
             return p;
         }
+        if tier == Tier::Thorough && idx + 3 > self.total_runs(tier) {
+            // thorough tier only: files of tens of MiB whose meaningful content comes last (assembled at execution time from a
+            // filler size and a small tail, so that the plan stays small), through the real file system
+            let k = self.total_runs(tier) - idx; // 1 or 2
+            let mut p = Plan::new("C08", "giant-file", seed, idx);
+            p.set("giant_mib", if k == 1 { 33 } else { 65 });
+            p.set("dec", 0);
+            p.set("t", crate::transport::T_FROM_PATH);
+            p.data = b"[Metadata]\nTitle:the very end\n[HitObjects]\n256,192,1000,1,0\n100,100,2000,2,0,L|200:100,1,100\n".to_vec();
+            p.faults.push("content-file-of-tens-of-MiB".into());
+            return p;
+        }
         let mut rng = Rng::for_run(seed, "C08", idx);
         let mut p = Plan::new("C08", "seeded", seed, idx);
         let enc = *rng.pick(&ENCS);
@@ -169,6 +181,19 @@ impl Scenario for C08 {
                 p.data = encode_text(&lines.join("\n"), enc);
                 p.faults.push("content-orphan-records-before-first-header".into());
             }
+            18 | 19 => {
+                // first-line variants: the version line in all its spellings, in front of (or instead of) the first line
+                let text = crate::corpus::model_text(&p.data);
+                let v = *rng.pick(&["osu file format v", "osu file format v14 // c", "osu file format vX", " osu file format v14", "osu file format", "osu file format v-5", "osu file format v2147483648", "osu file format v 7 ", "osu file format v0", "osu file format v+9", "osu file format v09", "osu file format v9.0", "OSU FILE FORMAT V9", "osu file format v９", "osu file format v14\u{a0}", "\u{3000}osu file format v14"]);
+                let t = if rng.chance(1, 2) {
+                    format!("{v}\n{text}")
+                } else {
+                    let rest = text.split_once('\n').map_or("", |x| x.1);
+                    format!("{v}\n{rest}")
+                };
+                p.data = encode_text(&t, enc);
+                p.faults.push("content-first-line-variant".into());
+            }
             14 if rng.chance(1, 2) => {
                 // the content spells the path of a file that exists (a bundled map, this process's executable, the root
                 // directory): it is still just text
@@ -226,6 +251,7 @@ impl Scenario for C08 {
             // the real file system more often, under all sorts of file names
             p.set("t", crate::transport::T_FROM_PATH);
             p.set("fname", rng.below(8) as i64);
+            p.set("locked", rng.below(3) as i64);
             p.sched.clear();
             p.eintr.clear();
         }
@@ -239,6 +265,24 @@ impl Scenario for C08 {
         p
     }
     fn execute(&self, plan: &Plan, st: &mut Stats) -> Result<(), Violation> {
+        let assembled;
+        let plan = if plan.has("giant_mib") {
+            let mib = plan.get("giant_mib").clamp(1, 128) as usize;
+            let mut d = Vec::with_capacity(mib * 1_048_576 + plan.data.len() + 64);
+            d.extend_from_slice(b"osu file format v14\n\n[Events]\n");
+            let filler = format!("//{}\n", "filler ".repeat(146));
+            while d.len() < mib * 1_048_576 {
+                d.extend_from_slice(filler.as_bytes());
+            }
+            d.extend_from_slice(&plan.data);
+            let mut q = plan.clone();
+            q.data = d;
+            st.inc("probe.file-of-tens-of-MiB");
+            assembled = q;
+            &assembled
+        } else {
+            plan
+        };
         let dec = Dec::from_i(plan.get("dec"));
         let base = from_bytes_fp(dec, &plan.data).map_err(|e| e.kind());
         let via = decode_via(plan, dec, st);
